@@ -226,7 +226,7 @@ func fatal(f string, a ...interface{}) {
 	os.Exit(2)
 }
 
-func runNode(dir string, upto int64, planFile string, crash string, labelsOut, crashOut string, port int, recoverOnly bool, serve int) {
+func runNode(dir string, upto int64, planFile string, crash string, labelsOut, crashOut string, port int, recoverOnly bool, serve int, fastSync bool, seeds string, commitMs int) {
 	w := newWorld()
 	var plan [][]string // plan[i] = transactions meant for height i+1
 	if planFile != "" {
@@ -268,7 +268,7 @@ func runNode(dir string, upto int64, planFile string, crash string, labelsOut, c
 	conf.Set("timeout_propose", 400)
 	conf.Set("timeout_prevote", 200)
 	conf.Set("timeout_precommit", 200)
-	conf.Set("timeout_commit", 120)
+	conf.Set("timeout_commit", commitMs)
 	conf.Set("pex_reactor", false)
 	conf.Set("fast_sync", false)
 	if serve > 0 { // a node that anybody may connect to (engine c08net): no certificate checks, peer exchange on
@@ -277,6 +277,12 @@ func runNode(dir string, upto int64, planFile string, crash string, labelsOut, c
 		conf.Set("pex_reactor", true)
 		conf.Set("addrbook_file", filepath.Join(dir, "addrbook.json"))
 		conf.Set("addrbook_strict", false)
+	}
+	if fastSync { // a node that catches up from its peers (engine realsync of C13)
+		conf.Set("fast_sync", true)
+	}
+	if seeds != "" {
+		conf.Set("seeds", seeds)
 	}
 	node, err := core.NewNode(conf, "", "evm")
 	if err != nil {
@@ -288,7 +294,15 @@ func runNode(dir string, upto int64, planFile string, crash string, labelsOut, c
 	if serve > 0 {
 		// run for `serve` seconds, publishing the height; then the process goes away
 		end := time.Now().Add(time.Duration(serve) * time.Second)
+		fedS := 0
 		for time.Now().Before(end) {
+			// the planned transactions, batch k once height k-1 is committed
+			for fedS < len(plan) && int64(fedS) <= node.Angine.Height() {
+				for _, t := range plan[fedS] {
+					node.Angine.BroadcastTx(w.tx(t, dir))
+				}
+				fedS++
+			}
 			ioutil.WriteFile(filepath.Join(dir, "height.tmp"), []byte(fmt.Sprint(node.Angine.Height())), 0644)
 			os.Rename(filepath.Join(dir, "height.tmp"), filepath.Join(dir, "height.txt"))
 			time.Sleep(25 * time.Millisecond)
@@ -565,6 +579,9 @@ func main() {
 	port := flag.Int("port", 46656, "")
 	recoverOnly := flag.Bool("recoveronly", false, "")
 	serve := flag.Int("serve", 0, "")
+	fastSync := flag.Bool("fastsync", false, "")
+	commitMs := flag.Int("commit", 120, "timeout_commit in ms")
+	seeds := flag.String("seeds", "", "")
 	flag.Parse()
 	log.SetLog(zap.NewNop())
 	log.SetAuditLog(zap.NewNop())
@@ -575,7 +592,7 @@ func main() {
 		conf.Set("log_dir", *dir)
 		gemmill.Initialize(&gemmill.Tunes{Runtime: *dir, Conf: conf}, "c06-chain")
 	case *doRun:
-		runNode(*dir, *upto, *plan, *crash, *labels, *crashOut, *port, *recoverOnly, *serve)
+		runNode(*dir, *upto, *plan, *crash, *labels, *crashOut, *port, *recoverOnly, *serve, *fastSync, *seeds, *commitMs)
 	case *doInspect:
 		gcrypto.NodeInit(gcrypto.CryptoType)
 		b, _ := json.Marshal(inspect(*dir))
